@@ -151,7 +151,7 @@ def getResult (e : ETable) (r : ERule) : Outcome DTValue :=
   else
     match r.outputs with
     | v :: _ => .ok v
-    | [] => .panic "decision_table.rs:119 evaluated_rule.output_entry_values[0]"
+    | [] => .panic "decision_table.rs:120 evaluated_rule.output_entry_values[0]"
 
 /-- `get_results`: the loop pushing `get_result` of every rule. -/
 def getResults (e : ETable) : List ERule → Outcome (List DTValue)
@@ -244,7 +244,7 @@ def firstOutputs (site : String) : List ERule → Outcome (List DTValue)
       | .error m => .error m
       | .panic s => .panic s
 
-/-! `bifs::core::sum / min / max` (`feel-evaluator/src/bifs/core.rs:1003, :608, :530`)
+/-! `bifs::core::sum / min / max` (`feel-evaluator/src/bifs/core.rs`, `pub fn sum`, `pub fn min`, `pub fn max`)
 restricted to this value type. -/
 
 def sumLoop (acc : Int) : List DTValue → DTValue
@@ -273,17 +273,16 @@ def bifMin : List DTValue → DTValue
   | .str s :: vs => minStrLoop s vs
   | _ :: _ => .null
 
-/-- `max` skips `Null` items after the first (`core.rs:544`, `:559`); `min` does not. -/
+/-- `max`: any item of another kind (null included) makes the result null, as in `min`
+(`core.rs:536-548`, `:550-562`; repaired by 8855d00, before it skipped nulls). -/
 def maxNumLoop (m : Int) : List DTValue → DTValue
   | [] => .num m
   | .num v :: vs => maxNumLoop (if v > m then v else m) vs
-  | .null :: vs => maxNumLoop m vs
   | _ :: _ => .null
 
 def maxStrLoop (m : List Char) : List DTValue → DTValue
   | [] => .str m
   | .str v :: vs => maxStrLoop (if strLt m v then v else m) vs
-  | .null :: vs => maxStrLoop m vs
   | _ :: _ => .null
 
 def bifMax : List DTValue → DTValue
@@ -315,9 +314,9 @@ def evaluate (t : Table) : Outcome DTValue :=
   | .outputOrder => hitOutputOrder e
   | .collectList => hitCollectList e
   | .collectCount => hitCollectCount e
-  | .collectSum => hitCollectAgg "decision_table.rs:223 evaluated_rule.output_entry_values[0]" bifSum e
-  | .collectMin => hitCollectAgg "decision_table.rs:238 evaluated_rule.output_entry_values[0]" bifMin e
-  | .collectMax => hitCollectAgg "decision_table.rs:253 evaluated_rule.output_entry_values[0]" bifMax e
+  | .collectSum => hitCollectAgg "decision_table.rs:224 evaluated_rule.output_entry_values[0]" bifSum e
+  | .collectMin => hitCollectAgg "decision_table.rs:239 evaluated_rule.output_entry_values[0]" bifMin e
+  | .collectMax => hitCollectAgg "decision_table.rs:254 evaluated_rule.output_entry_values[0]" bifMax e
 
 /-! ## `parse_hit_policy_attribute` / `parse_aggregation_attribute` (`model/src/model/parser.rs:777-808`)
 
@@ -474,9 +473,10 @@ def evaluate (t : Table) : DTValue :=
 
 end Spec
 
-/-- What `parse_decision_table` guarantees about an evaluated table when it returns `Ok`:
-every rule carries exactly one output value per output clause, and there is at least one
-output clause. -/
+/-- What `parse_decision_table` guarantees about an evaluated table when it returns `Ok`
+(it rejects a table without output clause and a rule whose number of entries differs from
+the number of clauses, `decision_table.rs:292-307`): every rule carries exactly one output
+value per output clause, and there is at least one output clause. -/
 def Table.WF (t : Table) : Bool :=
   decide (t.outputValues.length ≥ 1) && decide (t.defaultOutputs.length = t.outputValues.length) &&
     t.rules.all (fun r => r.outputs.length = t.outputValues.length)
